@@ -41,7 +41,7 @@ def export(spec, seed=None, ctx=None, **kw):
     # the first collection may sit on a sequence chunk that contains all its members (the result of a position query): a feature
     # table is written in chromosome coordinates, so it is the table of the same collection on the whole chromosome
     ch_ = spec.get("chunk")
-    colls = [mkcollection(spec["obj"], chunk_parent(spec["genome"], ch_[0], ch_[1]) if ch_ else chrom_parent(spec["genome"]))]
+    colls = [mkcollection(spec["obj"], chunk_parent(spec["genome"], ch_[0], ch_[1], strand=spec.get("chunk_strand", "+")) if ch_ else chrom_parent(spec["genome"]))]
     for k_, m_ in enumerate(spec.get("more") or []):
         nm_ = m_.get("name", "chr%d" % (k_ + 2))
         colls.append(mkcollection(m_["obj"], chrom_parent(m_["genome"], name=nm_), sequence_name=nm_))
@@ -104,6 +104,8 @@ def check_tbl(spec, ctx):
         ctx.label("collection_on_chunk")
         if spec["chunk"][0] > 0:
             ctx.label("collection_on_chunk_with_offset")
+        if spec.get("chunk_strand") == "-":
+            ctx.label("collection_on_minus_chunk")
     if any(t.get("frameshift") for gn in genes for t in gn["transcripts"]):
         # a feature table has no per-exon frames: the CDS is written as read contiguously from its 5' frame, and the partial marks
         # and the pseudo flag describe that reading
@@ -242,6 +244,7 @@ def strat_tbl(draw, tier="quick"):
         lo_ = min(t["exons"][0][0] for gn in sp["obj"]["genes"] for t in gn["transcripts"])
         hi_ = max(t["exons"][-1][1] for gn in sp["obj"]["genes"] for t in gn["transcripts"])
         sp["chunk"] = [draw(st.integers(0, lo_)), draw(st.integers(hi_, len(sp["genome"])))]
+        sp["chunk_strand"] = draw(st.sampled_from(["+", "+", "-"]))   # the chunk may be the reverse complement of its window
     if draw(st.integers(0, 3)) == 0:
         # a table of several sequences; a later sequence may also have no gene at all
         sp["more"] = [draw(_one_collection(min_genes=draw(st.sampled_from([0, 1, 1])), tag="s%d" % k)) for k in range(draw(st.integers(1, 2)))]
@@ -305,7 +308,7 @@ PROP = Prop(
     pid="C17",
     legs=[
         Leg("tbl", check_tbl, strategy=strat_tbl, n_quick=450, n_thorough=6000, shards_quick=4,
-            must_hit=["5p_partial", "3p_partial_frame", "3p_partial_nostop", "pseudo", "adjacent_cds_merged", "minus_multi_exon", "seed0", "complete_cds", "alt_start", "exported_under_another_hash_seed", "several_sequences_with_genes", "collection_on_chunk_with_offset"],
+            must_hit=["5p_partial", "3p_partial_frame", "3p_partial_nostop", "pseudo", "adjacent_cds_merged", "minus_multi_exon", "seed0", "complete_cds", "alt_start", "exported_under_another_hash_seed", "several_sequences_with_genes", "collection_on_chunk_with_offset", "collection_on_minus_chunk"],
             rule="1..3 collections (sequences) per table, each with sequence on a whole chromosome, 1..3 genes (1..3 isoforms each; coding with start offsets 0/1/2 and 0-bp-gap CDS blocks, or ncRNA/tRNA/rRNA/misc_RNA/lncRNA), sequences with planted start / stop / in-frame stop codons, x flavour x translation table x locus_tag_jump_size x random_seed (incl. 0) x optional prefix/lab; the text is read by an independent 5-column reader"),
     ],
     rule="Oracle: independent TBL reader; merged source blocks as 1-based inclusive 5'->3' intervals; FrameModel + codon tables for partial marks, codon_start and pseudo. "
